@@ -139,6 +139,14 @@ func (inst *instance) ShutdownAdmin() {
 	})
 }
 
+// ShutdownLocalConf shutdowns the local conf store. There is no such store
+// any more, but it must be defined: otherwise the method is promoted from the
+// Instance of the embedded Restarter, which is the instance itself, and the
+// call never ends.
+func (inst *instance) ShutdownLocalConf() {
+	logger.Infof("Shutdown local conf...")
+}
+
 // DrainListeners drains the listeners.
 func (inst *instance) DrainListeners() {
 	inst.drainListenersOnce.Do(func() {
